@@ -44,3 +44,74 @@ for _n, _m in [("ofp_hello", 0), ("ofp_error", 12), ("ofp_echo_request", 8), ("o
                ("ofp_port_status", 64), ("ofp_port_mod", 32), ("ofp_barrier_request", 8), ("ofp_barrier_reply", 8),
                ("ofp_queue_get_config_request", 12)]:
   _mk(_n, _m)
+
+
+# ---- the converse (added 2026-09-25 after seeded change C02_6): a message whose declared length is one the wire format
+# allows for its type is ACCEPTED - decoded without raising - whatever else it contains.  (A decoder that rejects such a
+# message, e.g. a HELLO carrying a body, breaks the framing of every stream that contains one: C02, and on the controller
+# side ends up in the 'malformed' path: C10.)
+
+def _mk_accept(cname, ok_len, pre=None, note=""):
+  cls = getattr(of, cname)
+
+  def u(b):
+    raw = b.bytes("raw", None, 8, 70000)
+    n = len(raw) if b.mode == "conc" else raw.length()
+    offset = b.int("offset", 0, 70000)
+    if b.mode == "sym":
+      from pyvc import sbytes as sb
+      b.assume(n - offset >= 8)
+      L = sb.byte_at(raw, offset + 2, b.st) * 256 + sb.byte_at(raw, offset + 3, b.st)
+      b.assume(n - offset >= L)
+      b.assume(ok_len(b, L))
+      if pre:
+        pre(b, raw, offset)
+    else:
+      # concrete sample: make the drawn bytes a buffer with a permitted declared length
+      import random
+      rng = random.Random(len(raw) * 131 + offset)
+      Ls = [x for x in (8, 12, 16, 18, 20, 24, 32, 64, 88, 100, 1500, 65535) if ok_len(b, x)]
+      L = rng.choice(Ls)
+      body = bytes(rng.getrandbits(8) for _ in range(L))
+      offset = offset % 7
+      raw = bytes(offset) + body[:2] + bytes([L >> 8, L & 255]) + body[4:] + bytes(rng.randrange(0, 9))
+      if pre:
+        raw = pre(b, raw, offset)
+      b.drawn["raw"] = raw.hex()
+      b.drawn["offset"] = offset
+    return Case(cls.unpack_new, [raw, offset], raises={}, ensures={
+      "consumed_is_declared_length": lambda res: res[0] == offset + L,
+    })
+  u.__name__ = "well_formed_length_is_accepted_" + cname
+  unit(P, target=MOD + cname + ".unpack" + note)(u)
+
+
+def _ge(m):
+  return lambda b, L: L >= m
+
+
+def _eq(m):
+  return lambda b, L: L == m
+
+
+for _n, _ok in [("ofp_hello", _ge(8)), ("ofp_echo_request", _ge(8)), ("ofp_echo_reply", _ge(8)), ("ofp_error", _ge(12)),
+                ("ofp_vendor_generic", _ge(12)), ("ofp_features_request", _eq(8)), ("ofp_get_config_request", _eq(8)),
+                ("ofp_get_config_reply", _eq(12)), ("ofp_set_config", _eq(12)), ("ofp_packet_in", _ge(18)),
+                ("ofp_barrier_request", _eq(8)), ("ofp_barrier_reply", _eq(8)), ("ofp_port_mod", _eq(32)),
+                ("ofp_flow_removed", _eq(88)), ("ofp_queue_get_config_request", _eq(12))]:
+  _mk_accept(_n, _ok)
+
+
+def _port_name_without_nul(b, raw, offset):
+  """ofp_phy_port.name (16 bytes at 8 + 8 + 2 + 6 of the message): the decoder rejects a name with non-zero bytes behind its
+  first NUL (a content rule, 'non-zero string padding'); the acceptance contract is stated for names without a NUL"""
+  at = offset + 8 + 8 + 2 + 6
+  if b.mode == "sym":
+    from pyvc import sbytes as sb
+    for i in range(16):
+      b.assume(sb.byte_at(raw, at + i, b.st) >= 1)
+    return raw
+  return raw[:at] + bytes((x or 0x41) for x in raw[at:at + 16]) + raw[at + 16:]
+
+
+_mk_accept("ofp_port_status", _eq(64), pre=_port_name_without_nul, note=" (port name without NUL)")
